@@ -1137,8 +1137,12 @@ fn id_menu(thorough: bool) -> Vec<Act> {
         m.push(Act::SetScript(Some("Cyrl")));
     }
     let alpha: &[S] = if thorough { &["valencia", "1996", "FONIPA"] } else { &["valencia", "1996"] };
-    for l in variant_lists(2, alpha) {
+    for l in variant_lists(if thorough { 3 } else { 2 }, alpha) {
         m.push(Act::SetVariants(l));
+    }
+    if !thorough {
+        // one list of three with a non-adjacent duplicate (sort/dedup order matters only there)
+        m.push(Act::SetVariants(vec!["valencia", "1996", "valencia"]));
     }
     m.push(Act::ClearVariants);
     #[cfg(feature = "likelysubtags")]
@@ -1149,8 +1153,17 @@ fn id_menu(thorough: bool) -> Vec<Act> {
     m
 }
 
-fn u_menu() -> Vec<Act> {
+fn u_menu(thorough: bool) -> Vec<Act> {
     let mut m = vec![];
+    if thorough {
+        for a in ["q1q1q1q1", "AAA"] {
+            m.push(Act::SetAttr(a));
+            m.push(Act::RemoveAttr(a));
+        }
+        m.push(Act::SetKeyword("kf", vec!["upper"]));
+        m.push(Act::SetKeyword("KF", vec!["a1b2c3d4", "true", "zzz"]));
+        m.push(Act::RemoveKeyword("kf"));
+    }
     for a in ATTRS {
         m.push(Act::SetAttr(a));
         m.push(Act::RemoveAttr(a));
@@ -1167,8 +1180,14 @@ fn u_menu() -> Vec<Act> {
     m
 }
 
-fn t_menu() -> Vec<Act> {
+fn t_menu(thorough: bool) -> Vec<Act> {
     let mut m = vec![];
+    if thorough {
+        m.push(Act::SetTfield("s0", vec!["ascii"]));
+        m.push(Act::SetTfield("S0", vec!["true", "a1b2c3d4"]));
+        m.push(Act::RemoveTfield("s0"));
+        m.push(Act::SetTlang("abcdefgh-Cyrl-419-fonipa-1abc"));
+    }
     for s in ["en", "und", "und-Latn", "EN_latn-us-1996", "de-valencia-1996"] {
         m.push(Act::SetTlang(s));
     }
@@ -1183,8 +1202,14 @@ fn t_menu() -> Vec<Act> {
     m
 }
 
-fn x_menu() -> Vec<Act> {
+fn x_menu(thorough: bool) -> Vec<Act> {
     let mut m = vec![];
+    if thorough {
+        for t in ["12345678", "0"] {
+            m.push(Act::AddTag(t));
+            m.push(Act::RemoveTag(t));
+        }
+    }
     for t in TAGS {
         m.push(Act::AddTag(t));
         m.push(Act::RemoveTag(t));
@@ -1230,13 +1255,13 @@ pub fn harnesses(ctx: &Ctx, which: &[&str]) -> Vec<std::sync::Arc<Harness>> {
         out.push(std::sync::Arc::new(Harness { name: "H-id", inits: inits.clone(), menu: id_menu(thorough), probes: probes(), tag_cap: 3, likely: likely.clone() }));
     }
     if want("H-u") {
-        out.push(std::sync::Arc::new(Harness { name: "H-u", inits: inits.clone(), menu: u_menu(), probes: probes(), tag_cap: 3, likely: likely.clone() }));
+        out.push(std::sync::Arc::new(Harness { name: "H-u", inits: inits.clone(), menu: u_menu(thorough), probes: probes(), tag_cap: 3, likely: likely.clone() }));
     }
     if want("H-t") {
-        out.push(std::sync::Arc::new(Harness { name: "H-t", inits: inits.clone(), menu: t_menu(), probes: probes(), tag_cap: 3, likely: likely.clone() }));
+        out.push(std::sync::Arc::new(Harness { name: "H-t", inits: inits.clone(), menu: t_menu(thorough), probes: probes(), tag_cap: 3, likely: likely.clone() }));
     }
     if want("H-x") {
-        out.push(std::sync::Arc::new(Harness { name: "H-x", inits: inits.clone(), menu: x_menu(), probes: probes(), tag_cap: if thorough { 5 } else { 4 }, likely: likely.clone() }));
+        out.push(std::sync::Arc::new(Harness { name: "H-x", inits: inits.clone(), menu: x_menu(thorough), probes: probes(), tag_cap: if thorough { 5 } else { 4 }, likely: likely.clone() }));
     }
     for (hname, large) in [("H-cross", true), ("H-cross-s", false)] {
         if !which.contains(&hname) {
